@@ -33,6 +33,29 @@ def run(ck):
     ck.rule("C11-R5", "B dominance + C counting",
             "all-of callbacks resolve only under the resolved == total test and increment the counter exactly once per path reaching it", 3)
 
+    ck.rule("C11-R6", "I type-level (value category handed to the continuation)",
+            "the stored value of a fulfilled core is handed to a continuation as an rvalue (detail::tryMove returning T&&) only when that "
+            "continuation's parameter is an rvalue reference; by-value and by-const-reference continuations get a const lvalue, so later "
+            "consumers of the same promise still see the produced value", 6)
+    nmove = 0
+    for f in prog.find(P + "impl::Continuation::doResolve", 6):
+        tm = [e for e in f.calls(lambda e: e.base_callee() == A + "detail::tryMove")]
+        for t in tm:
+            # the consumer call is the next call event in the same block that takes the tryMove result
+            cons = [e for e in f.blocks[t.block].elems[t.idx + 1:] if e["k"] == "call" and any("tryMove" in (a.get("t") or "") for a in e.get("args", []))]
+            if not cons:
+                ck.ob("C11-R6", "doResolve@%s" % f.line, False, t.loc, f, "consumer of the tryMove result not found")
+                continue
+            c = cons[0]
+            ptypes = c.get("cparams") or []
+            moved = (t.get("cretc") or "").rstrip().endswith("&&")
+            p_rref = bool(ptypes) and ptypes[0].rstrip().endswith("&&")
+            if moved:
+                nmove += 1
+            ck.ob("C11-R6", "doResolve@%s" % f.line, (not moved) or p_rref, t.loc, f,
+                  "tryMove returns '%s' into parameter '%s'" % (t.get("cretc"), ptypes[0] if ptypes else "?"))
+    ck.require(nmove >= 1, "no instantiation hands the value over as an rvalue: the positive instance in inst/async_inst.cc vanished")
+
     # ---------------- R1 ----------------
     for what, cnt in (("doResolve", "resolveCount_"), ("doReject", "rejectCount_")):
         outer = "resolve" if what == "doResolve" else "reject"
